@@ -17,6 +17,9 @@ from props.common import (
 )
 from props.witness import witness_rule
 
+KEEP = [  # private helpers the rules name (kept as functions); every other non-exported, non-trait function is spliced into its callers
+    "RecorderOnceCell::set",
+]
 TITLE = "C04 handles apply every update exactly once."
 CONFIGS = ["test-profile"]
 
